@@ -114,7 +114,11 @@ def gen_history(rnd, length):
     for _ in range(length):
         r = rnd.random()
         pi = rnd.randrange(2)
-        if r < 0.30:
+        if r < 0.04:
+            # a subscriber without error handler whose completion fails: a reduction whose result
+            # handler raises (or, over an empty period, rx's "no elements" error)
+            ops.append(["stage", pi, "raiser"])
+        elif r < 0.30:
             ops.append(["stage", pi, rnd.choice(STAGES)])
         elif r < 0.45:
             ops.append(["activate", pi, rnd.choice(["with", "global", "child"])])
@@ -141,6 +145,16 @@ class PState:
         self.entered_via = None
 
     def attach(self, kind):
+        if kind == "raiser":
+            if self.state != "done":
+                self.raisers = getattr(self, "raisers", 0) + 1
+                key = "b" if self.pi == 0 else "a"
+
+                def fail(v):
+                    raise RuntimeError("result handler fails")
+
+                self.p[key].max().subscribe(fail)
+            return None
         obs = build_stage(self.p, self.pi, kind)
         st = {"kind": kind, "obs": obs, "next": [], "done": [0], "err": [], "at": len(self.delivered), "when": self.state}
         obs.subscribe(
@@ -294,12 +308,19 @@ def run_history(ns, ops, res):
                 if p.state != "active":
                     continue
                 via = p.entered_via
-                if op[2] == "exception":
-                    via.__exit__(ValueError, ValueError("boom"), None)
-                elif op[2] == "explicit":
-                    p.p.deactivate()
-                else:
-                    via.__exit__(None, None, None)
+                try:
+                    if op[2] == "exception":
+                        via.__exit__(ValueError, ValueError("boom"), None)
+                    elif op[2] == "explicit":
+                        p.p.deactivate()
+                    else:
+                        via.__exit__(None, None, None)
+                except Exception as ex:
+                    # completing a failing subscriber raises out of the deactivation; the probe
+                    # must be deactivated nonetheless (checked below like any deactivation)
+                    if not getattr(p, "raisers", 0) or type(ex).__name__ not in ("RuntimeError", "SequenceContainsNoElementsError"):
+                        raise
+                    info["failing_completions"] = info.get("failing_completions", 0) + 1
                 p.state = "done"
             elif kind == "call":
                 x = op[1]
@@ -327,7 +348,11 @@ def run_history(ns, ops, res):
         try:
             for p in ps:
                 if p.state == "active":
-                    p.entered_via.__exit__(None, None, None)
+                    try:
+                        p.entered_via.__exit__(None, None, None)
+                    except Exception as ex:
+                        if not getattr(p, "raisers", 0) or type(ex).__name__ not in ("RuntimeError", "SequenceContainsNoElementsError"):
+                            raise
                     p.state = "done"
             f(3)
             check("wind-down (everything deactivated, one more call)")
